@@ -157,8 +157,8 @@ def handleReq (store : Store) (j : Json) : Except String Json := do
   else if op == "wprint" then
     let q ← qOfJson (← j.getObjVal? "q")
     match wprint q with
-    | some t => return Json.mkObj [("toks", jstrs t)]
-    | none => return Json.mkObj [("none", true)]
+    | some t => return Json.mkObj [("toks", jstrs t), ("wireOK", wireOK q)]
+    | none => return Json.mkObj [("none", true), ("wireOK", wireOK q)]
   else if op == "wparse" then
     let t ← strs (← j.getObjVal? "toks")
     match wparse (2 * t.length + 2) t with
